@@ -218,6 +218,26 @@ def run(h, res, name, tagged):
           "bytes_min_median_max": [sizes[0], sizes[len(sizes) // 2], sizes[-1]] if sizes else [],
           "pairs_compared": sum((o or "").count("(") for o in impl),
           "kinds": dict(sorted(kinds.items()))}
+    # implementation only (the parser's share of C01 for REJECTED texts, where the model has no error value):
+    # the position pest reports lies inside the text, on a character boundary
+    rej = [t for t, o in zip(texts, impl) if o == "ERR"]
+    errs = c.harness_lines_resilient(h, "pegerr", [c.hexs(t) for t in rej]) if rej else []
+    outside = 0
+    for t, o in zip(rej, errs):
+        m = re.match(r"^ERR (\d+) (\d+)$", o or "")
+        b = t.encode("utf-8")
+        good = bool(m) and int(m.group(1)) <= int(m.group(2)) == len(b)
+        if good:
+            q = int(m.group(1))
+            good = q == len(b) or (b[q] & 0xC0) != 0x80
+        if not good:
+            outside += 1
+            res.violation("pest error position outside the text or inside a character: %r -> %s" % (t, o),
+                          {"kind": "peg-error-position", "program": t, "observed": o,
+                           "expected": "ERR <pos> <len> with pos <= len on a character boundary",
+                           "rerun": "harness pegerr < hex(program)"})
+    st["error_positions_checked"] = len(rej)
+    st["error_positions_outside"] = outside
     res.streams[name] = st
     if fuel:
         res.tie_broken("PEG model ran out of fuel on %d %s inputs (fuel 128 + 48*len)" % (fuel, name),
@@ -230,8 +250,50 @@ def run(h, res, name, tagged):
     return len(texts), len(texts) - len(mism)
 
 
+def run_ast(h, res, name, tagged):
+    """PARSE-text: text -> pairs (Peg.v) -> items (PegToItems.v) -> AST (Pratt.v) as ONE model, against the real
+    parse / pairs_to_expr (harness parse10: Show of the AST of every statement)."""
+    seen = {}
+    for k, t in tagged:
+        try:
+            t.encode("utf-8")
+        except UnicodeEncodeError:
+            continue
+        if len(t) <= 1500 and t not in seen:
+            seen[t] = k
+    texts = list(seen)
+    impl = c.harness_lines_resilient(h, "parse10", [c.hexs(t) for t in texts])
+    try:
+        model = c.coq_eval_batch(["Blots.Num", "Blots.PegToItems"], "", ['parse_text (hx "%s")' % c.hexs(t) for t in texts],
+                                 "c10pegast" + re.sub(r"[^A-Za-z0-9]", "_", name), shard=150)
+    except c.BrokenTie as e:
+        res.tie_broken(e.what, e.detail)
+        return len(texts), 0
+    kinds = {}
+    for t in texts:
+        kinds[seen[t]] = kinds.get(seen[t], 0) + 1
+    mism = [i for i in range(len(texts)) if impl[i] != model[i]]
+    bad = sum(1 for m in model if m in ("FUEL", "OUTOFFUEL"))
+    st = {"cases": len(texts), "mismatches": len(mism), "model_out_of_fuel": bad,
+          "impl_rejects": sum(1 for o in impl if o == "REJECT"),
+          "impl_glue_errors": sum(1 for o in impl if o == "GLUEERR"),
+          "impl_panics": sum(1 for o in impl if (o or "").startswith(("PANIC", "ABORT"))),
+          "statements_compared": sum((o or "").count(" ;; ") + 1 for o in impl if o and o[0] in "EO"),
+          "with_output_declaration": sum(1 for o in impl if (o or "").startswith("O ") or " ;; O " in (o or "")),
+          "kinds": dict(sorted(kinds.items()))}
+    res.streams[name] = st
+    if bad:
+        res.tie_broken("text -> AST model ran out of fuel on %d %s inputs" % (bad, name))
+    if mism:
+        i = mism[0]
+        res.tie_broken("correspondence C10/%s: the text -> pairs -> items -> AST model (Peg.v, PegToItems.v, Pratt.v) and "
+                       "the real parse / pairs_to_expr disagree on %d of %d texts" % (name, len(mism), len(texts)),
+                       "first: text=%r model=%s impl=%s" % (texts[i], (model[i] or "")[:600], (impl[i] or "")[:600]))
+    return len(texts), len(texts) - len(mism)
+
+
 def peg_streams(h, res, rng, tier, tree_meta):
-    ok_build, log = c.coq_make(["gen/Grammar.vo"])
+    ok_build, log = c.coq_make(["gen/Grammar.vo", "PegToItems.vo"])
     if not ok_build:
         res.tie_broken("coq/Peg.v / coq/gen/Grammar.v no longer compile", log[-1500:])
         return 0, 0
@@ -244,6 +306,9 @@ def peg_streams(h, res, rng, tier, tree_meta):
     ok += b
     mal = malformed(rng, [t for _, t in gen + fixed], 900 if tier == "quick" else 12000)
     a, b = run(h, res, "PEG-malformed", mal)
+    total += a
+    ok += b
+    a, b = run_ast(h, res, "PARSE-text", gen + fixed + mal[:len(mal) // 3])
     total += a
     ok += b
     return total, ok
